@@ -644,3 +644,32 @@ def c16l(ctx):
                       fail='WMTSServer.%s validates the tile address with %s, not with the layer of the requested tile matrix set' % (m, c[:70]))
         chk = [x for x in fn.walk() if is_call(x, 'self.check_request')]
         ctx.check(bool(chk), 'WMTSServer.%s:request-checked' % m, 'check_request (layer / matrix set known) runs in the handler', fn)
+
+
+@rule('C16.m', floor=2)
+def c16m(ctx):
+    """shared rule C02.d, re-evaluated for this property: a level beyond the advertised tile sets is refused -- the public order is
+    mapped to the internal level as (z + first-level skip) * odd-level factor *before* limit_tile judges it; with the two steps swapped
+    an order above the last advertised one lands on an existing level and is fetched and stored"""
+    from ..engine import share
+    share(ctx, 'C02', {'C02.d'}, keep=lambda o: 'TileServiceGrid' in o.construct)
+
+
+@rule('C16.n', floor=2)
+def c16n(ctx):
+    """a format that is not offered is refused before anything is fetched: a WMS-C request (tiled=true) is answered from single
+    cached tiles, so it must ask for the format the tiles are *stored* in -- `tile_manager.format`, the one the TileSet advertises --
+    and for the tile size of the grid.  (`request_format` is what the cache asks its sources for; compared with that, an unoffered
+    format is fetched and stored and the offered one refused)"""
+    fn = ctx.fn('mapproxy/layer.py:CacheMapLayer._check_tiled')
+    g = fn.cfg
+    raises = g.find_stmts(lambda s: isinstance(s, ast.Raise))
+
+    def fmt(at):
+        return at.op == '==' and {unparse(at.left), unparse(at.right)} == {'query.format', 'self.tile_manager.format'}
+
+    def size(at):
+        return at.op == '==' and {unparse(at.left), unparse(at.right)} == {'query.size', 'self.grid.tile_size'}
+    ctx.check(any(g.guarded(n, fmt, False) for n in raises), 'CacheMapLayer._check_tiled:stored-format', 'a tiled request in another format than tile_manager.format is refused', fn,
+              fail='CacheMapLayer._check_tiled does not compare the requested format with the format the tiles are stored in')
+    ctx.check(any(g.guarded(n, size, False) for n in raises), 'CacheMapLayer._check_tiled:tile-size', 'a tiled request in another size than the tile size is refused', fn)
